@@ -231,6 +231,12 @@ def worker(args):
                         if dn.startswith(b".") and dn not in (b"../",):
                             res["viol"].append({"key": "c13:listing-shows-dot-file", "detail": repr(dn), "replay": rp})
                             break
+                    # a listing of a directory outside the roots (reached through a symlink) discloses its file names
+                    shown = set(proto.url_decode(nm, plus=False) for nm in names)
+                    leak = [x for x in (b"never.txt", b"r2.txt") if x in shown] + ([x for x in (b"secret.txt", b"inner.txt") if x in shown] if check_symlink else [])
+                    if leak:
+                        res["viol"].append({"key": "c13:listing-of-directory-outside-document-roots", "detail": "request %r lists %r (check_symlink=%s)" % (path[:200], leak, check_symlink), "replay": rp})
+                        break
                     if b"<ird>" in body or b"&'\"" in body or b"we<" in body:
                         res["viol"].append({"key": "c13:listing-not-html-escaped", "detail": repr(body[:0] + b"..."), "replay": rp})
                         break
